@@ -180,6 +180,68 @@ def h1_config(ck, hb, db, ref, job, work, rng, phases, ctx):
     return info
 
 
+def h1_parsefail(ck, hb, db, ref, work, C, silent, ctx):
+    """the failed-build path: an OKL string that does not parse; with `silent` the mode returns a null kernel and
+    device::buildKernel removes the hash directory (sys::rmrf), without it the parser error is raised"""
+    # sys::rmrf refuses (sys/safe_rmrf) unless a path component is named occa / .occa / occa_* / .occa_*
+    cache = os.path.join(work, "occa_parsefail%d" % int(silent))
+    B.rmtree(cache)
+    text = "@kernel void verifK(const int n { %d" % C
+    args = ["Serial"] + (["--silent"] if silent else []) + ["x:%d" % C]
+    out = os.path.join(work, "trace-parsefail-%d.txt" % int(silent))
+    rc, so, se = B.run_traced(hb, cache, args, out)
+    ck.cov["evaluations"] += 1
+    label = "parse failure silent=%d" % int(silent)
+    lines_out = [l for l in so.splitlines() if l.strip()]
+    want_ok = (rc == 0 and lines_out == ["K 0 %d uninitialized" % C, "DONE"]) if silent else (rc == 3 and lines_out and lines_out[0].startswith("EXC"))
+    if not want_ok:
+        ck.oracle_violation("a build of an unparsable kernel does not end as documented (%s): rc=%s out=%s" % (label, rc, so.strip()[:200]),
+                            "scenario Serial x %d %s" % (C, label))
+        return
+    bad = B.cache_good(cache, ref)
+    # with silent the hash directory is gone; without it the two source files stay: they are complete files
+    bad = [b for b in bad if "no complete build produces" not in b]
+    if bad:
+        ck.oracle_violation("after a failed build a final-named file is not a complete artefact: " + "; ".join(bad[:3]),
+                            "scenario Serial x %d %s" % (C, label))
+    canon = B.Canon(cache, {"dirs": {}, "toks": {}, "k": 0})
+    steps = canon.steps(B.parse_strace(out), "1")
+    vd = [d for (d, b) in ref.files if ref.role(d) == "V"]
+    if not vd:
+        return
+    kd = [k for k, v in canon.names["dirs"].items() if v == "K0"]
+    K = "K0"
+    cfg = ["cfg openmp 0", "cfg fromString 1", "cfg silent %d" % int(silent), "cfg parseOk 0", "cfg kdir " + K,
+           "cfg vdir " + canon.dname(vd[0], "V"), "cfg rawBase string_source.raw_source.cpp", "cfg cppBase string_source.source.cpp",
+           "content str " + text.encode().hex(), "content raw " + (b"\n" + text.encode()).hex(),
+           "content vsrc " + ref.files[(vd[0], "findCompilerVendor.cpp")].hex(), "content vout " + ref.files[(vd[0], "output")].hex()]
+    spec = [l for l in ref.spec_lines(canon) if l.split()[1].startswith("V/")] + \
+           ["spec %s/string_source.cpp %s" % (K, text.encode().hex()), "spec %s/string_source.raw_source.cpp %s" % (K, (b"\n" + text.encode()).hex())]
+    lines = cfg + spec + steps + ["check accepts", "check good", "check consistent", "model 1"]
+    outl = drive(ck, db, lines)
+    if outl is None:
+        return
+    ctx["scenarios"] += 1
+    for l, o in zip(lines, outl):
+        if l.startswith("check "):
+            if not o.endswith(" 1"):
+                ck.problems.append(("tie", "H1 %s: %s" % (label, o[:300])))
+        elif l.startswith("model "):
+            head, *evs = o.split(" | ")
+            a, b = B.normalise_steps(steps), B.normalise_steps(evs)
+            want_head = "model null" if silent else "model raised"
+            if not head.startswith(want_head):
+                ck.problems.append(("tie", "H1 %s: the model ends with `%s`" % (label, head)))
+            if a != b:
+                i = next((i for i in range(max(len(a), len(b))) if (a[i] if i < len(a) else None) != (b[i] if i < len(b) else None)), 0)
+                ck.problems.append(("tie", "H1 %s: observed step list differs from the model's buildSteps at step %d: observed `%s` model `%s`"
+                                    % (label, i, B.short(a[i] if i < len(a) else "<end>"), B.short(b[i] if i < len(b) else "<end>"))))
+            ctx["samples"].append({"scenario": label, "steps": len(a), "model": head, "last": [B.short(x, 70) for x in a[-2:]]})
+        elif o != "ok":
+            ck.problems.append(("tie", "H1 %s: driver rejected line `%s`: %s" % (label, B.short(l, 80), o)))
+    B.rmtree(cache)
+
+
 # ------------------------------------------------------------------ H2: real fault injection
 
 def kill_case(hb, job, ref, work, call, n, idx):
@@ -333,6 +395,10 @@ def main(argv):
                         (Job("OpenMP", "f", C2, work), ["cold", "partial1", "killed1"])]
             with ThreadPoolExecutor(max_workers=len(plan)) as ex:
                 infos = list(ex.map(lambda jp: h1_config(ck, hb, db, ref, jp[0], work, random.Random(rng.random()), jp[1], ctx), plan))
+            # the failed-build path (rmrf of the hash directory / raised parser error)
+            h1_parsefail(ck, hb, db, ref, work, C1, True, ctx)
+            if thorough:
+                h1_parsefail(ck, hb, db, ref, work, C1, False, ctx)
             # corpus: the F35 window, located in this run's own recording
             corpus_kills = {}
             for (job, _), info in zip(plan, infos):
